@@ -215,7 +215,7 @@ func c01One(i int, r *rand.Rand, res *core.Result) {
 		h.clk.Delta = adv
 		budget := 0
 		if adv > 0 {
-			budget = 200000
+			budget = 60000
 		}
 		got, first, ok := h.tick(budget)
 		h.clk.Delta = 0
